@@ -85,8 +85,9 @@ type Func struct {
 	Results  []*Type
 	Recv     *Struct
 	Pure     bool
-	Rec      bool // recursive with a decreasing first int parameter
-	NilSafe  bool // method that returns literals when its receiver is nil
+	Rec      bool          // recursive with a decreasing first int parameter
+	NilSafe  bool          // method that returns literals when its receiver is nil
+	blank    map[*Var]bool // parameters spelled _ in the declaration
 }
 
 type lib struct {
